@@ -211,6 +211,17 @@ func init() {
 			st.assume(Implies(Eq(kind, IntLit(1)), And(App("addr.isQuadPort", SBool, r), Eq(App("addr.quadOf", SInt, r), bits), Eq(App("addr.portOf", SInt, r), port))))
 			return r
 		}
+		// a value of a module type with a value-receiver String method under contract: fmt calls that method
+		// (fmt.Stringer; none of the module's types implements fmt.Formatter or error on these values)
+		if n, ok := iv.Alts[0].T.(*types.Named); ok && n.Obj().Pkg() != nil {
+			key := n.Obj().Pkg().Path() + ".(" + n.Obj().Name() + ").String"
+			if fn, ok := ex.FuncByKey[key]; ok {
+				if ct, ok := ex.Contracts[key]; ok && !implementsFormatterOrError(n) {
+					ex.cur.contractsUsed[key] = true
+					return ex.callWithContract(st, instr, fn, ct, []Value{iv.Alts[0].Val})
+				}
+			}
+		}
 		return nil
 	}
 	reg("net/netip.AddrFromSlice", func(ex *Exec, st *State, instr ssa.Instruction, args []Value) Value {
@@ -345,4 +356,16 @@ func init() {
 		s.Elem = t.Underlying().(*types.Slice).Elem()
 		return s
 	}
+}
+
+// implementsFormatterOrError: the type has a Format or Error method (fmt would use those before String)
+func implementsFormatterOrError(n *types.Named) bool {
+	ms := types.NewMethodSet(n)
+	for i := 0; i < ms.Len(); i++ {
+		switch ms.At(i).Obj().Name() {
+		case "Format", "Error", "GoString":
+			return true
+		}
+	}
+	return false
 }
